@@ -2533,6 +2533,14 @@ class Binop(Elemwise):
 
     def _simplify_up(self, parent, dependents):
         if isinstance(parent, Projection):
+            if any(
+                not isinstance(op, Expr)
+                and pd.api.types.is_list_like(op)
+                and not is_series_like(op)
+                for op in (self.left, self.right)
+            ):
+                # lists and arrays are matched with the columns by position
+                return
             changed = False
             columns = determine_column_projection(self, parent, dependents)
             columns = _convert_to_list(columns)
